@@ -13,6 +13,10 @@ Part D (geometry): the corner Jacobians used by the handedness validator are inv
 -/
 import CBV.Lemmas.C11Chain
 import CBV.Lemmas.C11Geom
+import CBV.Lemmas.C11Loft
+import CBV.Lemmas.C11Distinct
+import Mathlib.Analysis.Real.Sqrt
+import Mathlib.Tactic.NormNum
 import Mathlib.Tactic.Ring
 import Mathlib.Tactic.Linarith
 import Mathlib.Algebra.Order.Field.Rat
@@ -536,5 +540,213 @@ example : rightHanded (ringSegPts 1 2 3 1 0 (3 / 5) (4 / 5)) = true :=
     chop exactly the operations `Sketch.chops` lists for axes 2 / 0 / 1 — so their choppability is the sketch
     theorem `T_C11_choppable_sketches`, not only a fact about one probe instance -/
 theorem T_C11_round_shapes_are_lofts : ∀ ns ∈ roundShapeSketch, roundShapeIsLoft ns = true := by decide +kernel
+
+/-! ## Part F — the point generators of the disk sketches and of the shapes lofted from them
+
+The generators of `Model/C11Geo.lean` are generic over the scalars; the theorems hold over every linearly ordered
+field `K` (ℝ included, where `h = √2/2` exists), the driver runs the same definitions over `Rat`. -/
+
+section PartF
+open P3
+
+/-- what the model assumes about the source of `disk.py` (the `np.linspace` arguments of `angles`, the `ratios`
+    lists, the layout of the positions lists of all six classes) is what the translator reads there with `ast` -/
+theorem T_C11_disk_generators_tie : diskGenRows = CBV.Gen.c11DiskGen := by decide +kernel
+
+/-- the angle lists are whole multiples of π/4 (the division in `linspaceIdx` is exact) -/
+theorem T_C11_disk_linspace_exact : ∀ r ∈ CBV.Gen.c11DiskGen,
+    r.2.1.1 % (if r.2.1.2.2 then r.2.1.2.1 - 1 else r.2.1.2.1) = 0 := by decide +kernel
+
+variable {K : Type} [Field K] [LinearOrder K] [IsStrictOrderedRing K]
+
+/-- the four points go round counter-clockwise about `u`, with a convex corner at each of them:
+    `(p1 − p0) × (p3 − p0) · u > 0` and cyclically -/
+def ccwAbout (u a b d e : P3 K) : Prop :=
+  0 < dot (cross (sub b a) (sub e a)) u ∧ 0 < dot (cross (sub d b) (sub a b)) u ∧
+  0 < dot (cross (sub e d) (sub b d)) u ∧ 0 < dot (cross (sub a e) (sub d e)) u
+
+/-- **faces are ordered counter-clockwise about the normal**: for every centre `c`, radius point `rp`, unit normal
+    `u ⟂ rp − c`, radius > 0 and ratios satisfying `DiskOK`, every quad of the (regenerated) quad map of
+    `OneCoreDisk`, `QuarterDisk`, `HalfDisk`, `FourCoreDisk` is convex and counter-clockwise about the normal -/
+theorem T_C11_disk_faces_ccw (cl : DiskCls) (c rp u : P3 K) (h k dg : K)
+    (hu : nsq u = 1) (hp : dot u (sub rp c) = 0) (hr : 0 < nsq (sub rp c)) (hok : DiskOK cl h k dg) :
+    ∀ q ∈ sketchQuads cl.name,
+      ccwAbout u ((diskPts cl c rp u h k dg).getD (q.getD 0 0) c) ((diskPts cl c rp u h k dg).getD (q.getD 1 0) c)
+        ((diskPts cl c rp u h k dg).getD (q.getD 2 0) c) ((diskPts cl c rp u h k dg).getD (q.getD 3 0) c) := by
+  intro q hq
+  obtain ⟨_, _, _, _, c1, c2, c3, c4⟩ := disk_convex cl h k dg hok q hq
+  simp only [quadOf] at c1 c2 c3 c4
+  have hdet := frameDet_pos (sub rp c) u hu hp hr
+  rw [diskPts_frame cl c rp u h k dg hp]
+  simp only [getD_map_frame]
+  unfold ccwAbout
+  simp only [cross_frame_dot]
+  exact ⟨mul_pos hdet c1, mul_pos hdet c2, mul_pos hdet c3, mul_pos hdet c4⟩
+
+/-- **`ExtrudedShape(disk sketch, amount)` is right-handed**: all eight corner Jacobians of every block are
+    positive, for every placement (centre, radius point, unit normal perpendicular to the radius), radius > 0 and
+    `amount > 0` -/
+theorem T_C11_extruded_disk_rightHanded (cl : DiskCls) (c rp u : P3 K) (h k dg a : K)
+    (hu : nsq u = 1) (hp : dot u (sub rp c) = 0) (hr : 0 < nsq (sub rp c)) (ha : 0 < a) (hok : DiskOK cl h k dg) :
+    ∀ H ∈ extrudedHexes (sketchQuads cl.name) cl c rp u h k dg a, H.RH := by
+  rw [extrudedHexes_frame _ cl c rp u h k dg a hp]
+  exact loft_RH c (sub rp c) u _ _ a _ (frameDet_pos _ u hu hp hr) ha (disk_convex cl h k dg hok)
+    (disk_convex cl h k dg hok)
+
+/-- **`Cylinder` (`FourCoreDisk`) and `SemiCylinder` (`HalfDisk`) are right-handed** for all axis points
+    `p1 ≠ p2`, every radius point with `axis ⟂ rp − p1` (the guard of `SemiCylinder.__init__`) and radius > 0;
+    `wl` is the witness of `norm(axis)` -/
+theorem T_C11_cylinder_rightHanded (cl : DiskCls) (p1 p2 rp : P3 K) (wl h k dg : K)
+    (hw : 0 < wl) (hww : wl * wl = nsq (sub p2 p1)) (hp : dot (sub p2 p1) (sub rp p1) = 0)
+    (hr : 0 < nsq (sub rp p1)) (hok : DiskOK cl h k dg) :
+    ∀ H ∈ cylinderHexes (sketchQuads cl.name) cl p1 p2 rp wl h k dg, H.RH := by
+  rw [cylinderHexes_eq _ cl p1 p2 rp wl h k dg hw]
+  apply T_C11_extruded_disk_rightHanded cl p1 rp _ h k dg wl (unit_of_witness _ wl hw hww) _ hr hw hok
+  rw [dot_smul_left, hp, mul_zero]
+
+/-- **`Frustum` is right-handed** for every end radius `r2 > 0` (`wr` witnesses the start radius) -/
+theorem T_C11_frustum_rightHanded (p1 p2 rp : P3 K) (wl h k dg r2 wr : K)
+    (hw : 0 < wl) (hww : wl * wl = nsq (sub p2 p1)) (hp : dot (sub p2 p1) (sub rp p1) = 0)
+    (hr : 0 < nsq (sub rp p1)) (h2 : 0 < r2) (hwr : 0 < wr) (hok : DiskOK .fourCore h k dg) :
+    ∀ H ∈ frustumHexes (sketchQuads "FourCoreDisk") p1 p2 rp wl h k dg r2 wr, H.RH := by
+  have hu := unit_of_witness (sub p2 p1) wl hw hww
+  have hpu : dot (smul (1 / wl) (sub p2 p1)) (sub rp p1) = 0 := by rw [dot_smul_left, hp, mul_zero]
+  have hdet := frameDet_pos _ _ hu hpu hr
+  have hax : sub p2 p1 = smul wl (smul (1 / wl) (sub p2 p1)) := (smul_witness _ _ hw).symm
+  unfold frustumHexes
+  rw [diskPts_frame .fourCore p1 rp _ h k dg hpu]
+  generalize smul (1 / wl) (sub p2 p1) = u' at hax hdet ⊢
+  rw [hax, frustum_top_frame]
+  have h0 : add p1 (smul wl u') = frame p1 (sub rp p1) u' (liftZ wl ⟨0, 0, 0⟩) := by
+    have h := add_frame wl p1 (sub rp p1) u' ⟨0, 0, 0⟩
+    rw [frame_zero] at h
+    rw [h]; simp only [liftZ]
+  rw [h0]
+  have h1 := loft_RH p1 (sub rp p1) u' (diskL .fourCore h k dg) ((diskL .fourCore h k dg).map (scaleL (r2 / wr)))
+    wl (sketchQuads "FourCoreDisk") hdet hw (disk_convex .fourCore h k dg hok)
+    (fun q hq => convexCCW_scale (r2 / wr) (div_pos h2 hwr) _ q (disk_convex .fourCore h k dg hok q hq))
+  rw [frame_zero] at h1
+  exact h1
+
+/-- **rim points lie on the circle, inner points on theirs**: with `2h² = 1` every point of
+    `FanPattern.get_outer_points` is at squared distance `|rp − c|²` from the centre, every point scaled back by
+    `ratio` at `ratio² |rp − c|²` -/
+theorem T_C11_fan_on_circle (c rp u : P3 K) (h : K) (hu : nsq u = 1) (hp : dot u (sub rp c) = 0)
+    (hh : 2 * (h * h) = 1) (i : Nat) (ratio : K) :
+    nsq (sub (fanPt c rp u h i) c) = nsq (sub rp c) ∧
+    nsq (sub (scaleP ratio c (fanPt c rp u h i)) c) = ratio * ratio * nsq (sub rp c) := by
+  have hd : (dir8 h i).1 * (dir8 h i).1 + (dir8 h i).2 * (dir8 h i).2 = 1 := by
+    unfold dir8
+    split <;> dsimp only <;> first | ring1 | linear_combination hh
+  rw [fanPt_frame c rp u h i hp, scaleP_centre_frame, nsq_frame _ _ _ _ hu hp, nsq_frame _ _ _ _ hu hp]
+  simp only [fanPtL]
+  constructor
+  · linear_combination nsq (sub rp c) * hd
+  · linear_combination ratio * ratio * nsq (sub rp c) * hd
+
+/-- every outer point of a disk sketch is a fan point (so the rim of the four classes lies on the circle) -/
+theorem T_C11_disk_rim_on_circle (cl : DiskCls) (c rp u : P3 K) (h : K) (hu : nsq u = 1)
+    (hp : dot u (sub rp c) = 0) (hh : 2 * (h * h) = 1) :
+    ∀ p ∈ fanOuter c rp u h cl.idx, nsq (sub p c) = nsq (sub rp c) := by
+  intro p hp'
+  obtain ⟨i, _, rfl⟩ := List.mem_map.mp hp'
+  exact (T_C11_fan_on_circle c rp u h hu hp hh i 1).1
+
+/-- **no two generated points coincide**: the positions handed to `MappedSketch` are pairwise different, so two
+    faces share exactly the points their quads share by index — the index-level conformity of the quad maps
+    (`T_C11_conformal_sketches`) is conformity in space -/
+theorem T_C11_disk_points_distinct (cl : DiskCls) (c rp u : P3 K) (h k dg : K)
+    (hu : nsq u = 1) (hp : dot u (sub rp c) = 0) (hr : 0 < nsq (sub rp c)) (hok : DiskOK cl h k dg) :
+    (diskPts cl c rp u h k dg).Nodup := by
+  rw [diskPts_frame cl c rp u h k dg hp]
+  exact List.Nodup.map
+    (fun p q hpq => frame_inj c _ u p q (ne_of_gt (frameDet_pos _ u hu hp hr)) hpq) (diskL_nodup cl h k dg hok)
+
+end PartF
+
+/-- non-vacuity over `Rat` (the scalars of the driver): a `FourCoreDisk` cylinder between (1, 2, 3) and (1, 2, 5)
+    with the radius point (4, 6, 3), `h = 7/10`, the source's `core_ratio = 4/5` and `diagonal_ratio ≈ 9/10` -/
+example : ∀ H ∈ cylinderHexes (sketchQuads "FourCoreDisk") .fourCore (⟨1, 2, 3⟩ : P3 Rat) ⟨1, 2, 5⟩ ⟨4, 6, 3⟩ 2
+    (7 / 10) (4 / 5) (9 / 10), H.RH :=
+  T_C11_cylinder_rightHanded .fourCore _ _ _ _ _ _ _ (by norm_num) (by norm_num [P3.nsq, P3.dot, P3.sub])
+    (by norm_num [P3.dot, P3.sub]) (by norm_num [P3.nsq, P3.dot, P3.sub])
+    (by unfold DiskOK; norm_num)
+
+/-- non-vacuity of `T_C11_frustum_rightHanded` and `T_C11_disk_faces_ccw` (same placement, `OneCoreDisk` for the faces) -/
+example : ∀ H ∈ frustumHexes (sketchQuads "FourCoreDisk") (⟨1, 2, 3⟩ : P3 Rat) ⟨1, 2, 5⟩ ⟨4, 6, 3⟩ 2
+    (7 / 10) (4 / 5) (9 / 10) 3 5, H.RH :=
+  T_C11_frustum_rightHanded _ _ _ _ _ _ _ _ _ (by norm_num) (by norm_num [P3.nsq, P3.dot, P3.sub])
+    (by norm_num [P3.dot, P3.sub]) (by norm_num [P3.nsq, P3.dot, P3.sub]) (by norm_num) (by norm_num)
+    (by unfold DiskOK; norm_num)
+
+example : DiskOK DiskCls.oneCore (7 / 10 : Rat) (4 / 5) (9 / 10) ∧ P3.nsq (⟨0, 0, 1⟩ : P3 Rat) = 1 ∧
+    P3.dot (⟨0, 0, 1⟩ : P3 Rat) (P3.sub ⟨4, 6, 3⟩ ⟨1, 2, 3⟩) = 0 := by
+  unfold DiskOK; norm_num [P3.nsq, P3.dot, P3.sub]
+
+/-! ### over ℝ: the exact values `h = √2/2`, `core_ratio`, `diagonal_ratio = a + b√2` of the source -/
+
+/-- `core_ratio` of the source as a real number -/
+noncomputable def coreRatioR : ℝ := (CBV.Gen.c11DiskConst.1.1 : ℝ) / (CBV.Gen.c11DiskConst.1.2 : ℝ)
+
+/-- `diagonal_ratio` of the source, `a + b √2` with the rationals the translator evaluated from the property -/
+noncomputable def diagRatioR : ℝ :=
+  (CBV.Gen.c11DiskConst.2.1.1 : ℝ) / (CBV.Gen.c11DiskConst.2.1.2 : ℝ)
+    + (CBV.Gen.c11DiskConst.2.2.1 : ℝ) / (CBV.Gen.c11DiskConst.2.2.2 : ℝ) * Real.sqrt 2
+
+/-- **the constants of the source satisfy the convexity conditions** of all four classes, with the exact
+    `h = cos π/4 = √2/2` (a change of `core_ratio`, `spline_ratios[8]` or of the `diagonal_ratio` formula that
+    leaves the admissible range breaks this proof) -/
+theorem T_C11_disk_constants (cl : DiskCls) : DiskOK cl (Real.sqrt 2 / 2) coreRatioR diagRatioR := by
+  have hs : Real.sqrt 2 * Real.sqrt 2 = 2 := Real.mul_self_sqrt (by norm_num)
+  have hs0 : 0 < Real.sqrt 2 := Real.sqrt_pos.mpr (by norm_num)
+  have hs1 : Real.sqrt 2 < 3 / 2 := by nlinarith
+  have hs2 : 7 / 5 < Real.sqrt 2 := by nlinarith
+  unfold coreRatioR diagRatioR
+  simp only [CBV.Gen.c11DiskConst]
+  cases cl <;> unfold DiskOK <;> simp only [] <;> norm_num <;> (try constructor) <;> nlinarith
+
+/-- the exact half diagonal satisfies `2h² = 1` -/
+theorem T_C11_half_sqrt_two : 2 * (Real.sqrt 2 / 2 * (Real.sqrt 2 / 2)) = 1 := by
+  have hs : Real.sqrt 2 * Real.sqrt 2 = 2 := Real.mul_self_sqrt (by norm_num)
+  nlinarith
+
+/-- **`Cylinder` / `SemiCylinder` over ℝ, no witnesses left**: for all real axis points `p1 ≠ p2` and radius points
+    off the axis with `axis ⟂ rp − p1`, with `norm(axis) = √|axis|²`, `h = √2/2` and the constants of the source,
+    every block is right-handed -/
+theorem T_C11_cylinder_real (cl : DiskCls) (p1 p2 rp : P3 ℝ) (hax : 0 < P3.nsq (P3.sub p2 p1))
+    (hp : P3.dot (P3.sub p2 p1) (P3.sub rp p1) = 0) (hr : 0 < P3.nsq (P3.sub rp p1)) :
+    ∀ H ∈ cylinderHexes (sketchQuads cl.name) cl p1 p2 rp (Real.sqrt (P3.nsq (P3.sub p2 p1))) (Real.sqrt 2 / 2)
+      coreRatioR diagRatioR, H.RH :=
+  T_C11_cylinder_rightHanded cl p1 p2 rp _ _ _ _ (Real.sqrt_pos.mpr hax) (Real.mul_self_sqrt hax.le) hp hr
+    (T_C11_disk_constants cl)
+
+/-- **`Frustum` over ℝ**: additionally for every end radius `r2 > 0`, `radius_1 = √|rp − p1|²` -/
+theorem T_C11_frustum_real (p1 p2 rp : P3 ℝ) (r2 : ℝ) (hax : 0 < P3.nsq (P3.sub p2 p1))
+    (hp : P3.dot (P3.sub p2 p1) (P3.sub rp p1) = 0) (hr : 0 < P3.nsq (P3.sub rp p1)) (h2 : 0 < r2) :
+    ∀ H ∈ frustumHexes (sketchQuads "FourCoreDisk") p1 p2 rp (Real.sqrt (P3.nsq (P3.sub p2 p1))) (Real.sqrt 2 / 2)
+      coreRatioR diagRatioR r2 (Real.sqrt (P3.nsq (P3.sub rp p1))), H.RH :=
+  T_C11_frustum_rightHanded p1 p2 rp _ _ _ _ r2 _ (Real.sqrt_pos.mpr hax) (Real.mul_self_sqrt hax.le) hp hr h2
+    (Real.sqrt_pos.mpr hr) (T_C11_disk_constants .fourCore)
+
+/-- non-vacuity of the real theorems: the unit cylinder along z -/
+example : 0 < P3.nsq (P3.sub (⟨0, 0, 1⟩ : P3 ℝ) ⟨0, 0, 0⟩) ∧
+    P3.dot (P3.sub (⟨0, 0, 1⟩ : P3 ℝ) ⟨0, 0, 0⟩) (P3.sub ⟨1, 0, 0⟩ ⟨0, 0, 0⟩) = 0 ∧
+    0 < P3.nsq (P3.sub (⟨1, 0, 0⟩ : P3 ℝ) ⟨0, 0, 0⟩) := by
+  norm_num [P3.nsq, P3.dot, P3.sub]
+
+/-- over `Rat` the new predicate is the validator of the driver: a block whose eight Jacobians are positive is
+    accepted by `rightHanded` (request `c11.rh`) -/
+theorem T_C11_RH_is_validator (H : Hex Rat) (h : H.RH) : rightHanded (H.toList.map P3.toV3) = true := by
+  apply rightHanded_of_jac _ rfl
+  intro k hk
+  unfold Hex.RH Hex.jacs at h
+  simp only [List.mem_cons, List.not_mem_nil, or_false, forall_eq_or_imp, forall_eq] at h
+  obtain ⟨j0, j1, j2, j3, j4, j5, j6, j7⟩ := h
+  have : k = 0 ∨ k = 1 ∨ k = 2 ∨ k = 3 ∨ k = 4 ∨ k = 5 ∨ k = 6 ∨ k = 7 := by omega
+  rcases this with rfl | rfl | rfl | rfl | rfl | rfl | rfl | rfl <;>
+    simp only [Hex.toList, List.map, P3.toV3, cornerJac, cornerNbrs, List.getD_cons_zero, List.getD_cons_succ, triple,
+      V3.dot, V3.cross_x, V3.cross_y, V3.cross_z, V3.sub_x, V3.sub_y, V3.sub_z] <;>
+    simp only [P3.triple, P3.dot, P3.cross, P3.sub] at j0 j1 j2 j3 j4 j5 j6 j7 <;>
+    assumption
 
 end CBV.C11
